@@ -198,6 +198,7 @@ func NewInterp(c *Case, want string, checks ...Checker) *Interp {
 	it.Denoms = it.H.Denoms()
 	for _, ch := range ExtChains {
 		it.W[ch] = NewWChain(ch)
+		it.W[ch].NextSeq = c.Cfg.StartSequence + 1 // the multisig's transaction count matches the hub's sequence counter
 	}
 	for u := 0; u < 3; u++ {
 		it.Accts[fmt.Sprintf("user%d", u)] = sim.UserAddr(u)
